@@ -32,6 +32,7 @@ def _units(tier):
         [['<a>'], ['<', 2, '>'], [2], ['</', 1, '>'], ['</a>']],
         [['%import ', 3]],
         [['<a>'], ['%import ', 2], ['</a>'], ['%import ', 2]],
+        [['%import ', 2], ['<a>'], ['%import ', 2], ['<b>'], ['%import ', 2], ['</b>'], ['</a>']],
         [['<A ', 2, '>'], ['K ', 2], ['k ', 2], ['</a>']],
         [['b ', 1], ['a ', 1], ['<s/>'], [1, ' ', 1]],
         [['%define ', 2]],
